@@ -525,4 +525,40 @@ example : Kern.mass_update_fwd [60000, 0, 0] [100, 200, 1 / 2] [1000, 3000] = ([
     List.map_nil, List.headD_cons, lit_real]
   norm_num
 
+/-! ## Source tie for the iteration drivers: ONE pass of the loop of each `iterate_flight_simulation_*` method, regenerated in loop
+    mode with array state (`Aeic.Kern.driver_*`; the specific ground range the pass computes is an array input) -/
+
+/-- the take-off mass a pass of the fuel-dependent drivers prescribes never exceeds the maximum take-off mass — for every mass
+    profile, every specific ground range, every payload / reserve setting (both reserve-fuel conventions) -/
+theorem src_driver_takeoff_le_mtow (mass sgr dx : List ℝ) (mtow oew mpl lf rf : ℝ) :
+    Kern.driver_fuel_dep_frac_takeoff mass sgr dx mtow oew mpl lf rf ≤ mtow ∧
+    Kern.driver_fuel_dep_value_takeoff mass sgr dx mtow oew mpl lf rf ≤ mtow := by
+  constructor <;>
+    (simp only [Kern.driver_fuel_dep_frac_takeoff, Kern.driver_fuel_dep_value_takeoff, smin]; split_ifs <;> linarith)
+
+/-- … and the profile a pass returns STARTS at that take-off mass (the as-found defect left the old first element in place: the
+    profile is re-anchored), so the returned initial mass never exceeds MTOW either -/
+theorem src_driver_profile_starts_at_takeoff (mass sgr dx : List ℝ) (mtow oew mpl lf rf : ℝ) (hm : mass ≠ []) :
+    headD (Kern.driver_fuel_dep_frac_step mass sgr dx mtow oew mpl lf rf)
+      = Kern.driver_fuel_dep_frac_takeoff mass sgr dx mtow oew mpl lf rf ∧
+    headD (Kern.driver_fuel_dep_value_step mass sgr dx mtow oew mpl lf rf)
+      = Kern.driver_fuel_dep_value_takeoff mass sgr dx mtow oew mpl lf rf := by
+  obtain ⟨m0, ms, rfl⟩ := List.exists_cons_of_ne_nil hm
+  constructor <;>
+    simp [Kern.driver_fuel_dep_frac_step, Kern.driver_fuel_dep_frac_takeoff, Kern.driver_fuel_dep_value_step,
+      Kern.driver_fuel_dep_value_takeoff, Vec.setTail, Vec.setHead, Vec.head0, headD]
+
+/-- one pass of each driver of the source IS the step function of the model (`fwdStep`, `bwdStep`, `fuelDepStep`) applied to the
+    burn vector of the specific ground range that pass computed — so `constInitial_profile`, `constFinal_profile`,
+    `fuelDependent_profile`, `initial_mass_le_mtow` and the monotonicity theorems, proved about the folds of these step functions,
+    speak about the loops of the source -/
+theorem src_driver_steps_are_model (mass sgr dx : List ℝ) (mtow oew mpl lf rf : ℝ) (hm : mass ≠ []) :
+    Kern.driver_const_initial_step mass sgr dx = fwdStep (fun _ => sgr.map burnPerMetre) dx mass ∧
+    Kern.driver_const_final_step mass sgr dx = bwdStep (fun _ => sgr.map burnPerMetre) dx mass ∧
+    Kern.driver_fuel_dep_frac_step mass sgr dx mtow oew mpl lf rf
+      = fuelDepStep (fun _ => sgr.map burnPerMetre) dx true mtow oew mpl lf rf mass ∧
+    Kern.driver_fuel_dep_value_step mass sgr dx mtow oew mpl lf rf
+      = fuelDepStep (fun _ => sgr.map burnPerMetre) dx false mtow oew mpl lf rf mass :=
+  KernelBridge4.driver_steps mass sgr dx mtow oew mpl lf rf hm
+
 end C19
